@@ -116,6 +116,15 @@ M = [
     ("C15", "shared-result-dict", "dissect/cstruct/types/structure.py", "        struct_start = stream.tell()\n\n        result = {}\n        sizes = {}", "        struct_start = stream.tell()\n\n        result = globals().setdefault(\"_RR\", {}).setdefault(cls, {})\n        result.clear()\n        sizes = {}"),
     ("C15", "shared-scratch-list", "dissect/cstruct/types/packed.py", "        result = []\n\n        fmt = _struct(cls.cs.endian, cls.packchar)\n        while True:", "        result = globals().setdefault(\"_SCR\", [])\n        del result[:]\n\n        fmt = _struct(cls.cs.endian, cls.packchar)\n        while True:"),
     ("C15", "compiled-shared-r", "dissect/cstruct/compiler.py", "        r = {}\n        s = {}\n        o = stream.tell()", "        r = cls.__dict__.get(\"_r\") or {}\n        type.__setattr__(cls, \"_r\", r)\n        r.clear()\n        s = {}\n        o = stream.tell()"),
+    ("C16", "deref-no-seek-back", "dissect/cstruct/types/pointer.py", "            finally:\n                # Also restore the position if the target can't be read\n                self._stream.seek(position)", "            finally:\n                pass"),
+    ("C16", "pointer-size-fixed-64", "dissect/cstruct/cstruct.py", "            self.pointer.size,\n            alignment=self.pointer.alignment,", "            8,\n            alignment=self.pointer.alignment,"),
+    ("C16", "compiled-pointer-no-stream", "dissect/cstruct/compiler.py", 'parser = f"_pt.__new__(_pt, {getter}, stream, r)"', 'parser = f"_pt.__new__(_pt, {getter}, None, r)"'),
+    ("C16", "add-returns-int", "dissect/cstruct/types/pointer.py", "        return type.__call__(self.__class__, int.__add__(self, other), self._stream, self._context)", "        return int.__add__(self, other)"),
+    ("C16", "null-test-identity", "dissect/cstruct/types/pointer.py", "        if self == 0 or self._stream is None:", "        if self._stream is None:"),
+    ("C16", "deref-cache-shared", "dissect/cstruct/types/pointer.py", "            self._value = value\n\n        return self._value", "            self._value = value\n            type.__setattr__(self.__class__, \"_c\", value)\n\n        return getattr(self.__class__, \"_c\", self._value)"),
+    ("C16", "pointer-array-elements-int", "dissect/cstruct/compiler.py", 'item_parser = "_et.__new__(_et, e, stream, r)"', 'item_parser = "_et.__new__(_et, e, None, r)"'),
+    ("C16", "sub-loses-stream", "dissect/cstruct/types/pointer.py", "        return type.__call__(self.__class__, int.__sub__(self, other), self._stream, self._context)", "        return type.__call__(self.__class__, int.__sub__(self, other), None, self._context)"),
+    ("C16", "char-pointer-reads-one", "dissect/cstruct/types/pointer.py", "                    value = self.type._read_0(self._stream, self._context)", "                    value = self.type._read(self._stream, self._context)"),
     ("C06", "be-mask-off", "dissect/cstruct/bitbuffer.py", "v >>= self._remaining - bits", "v >>= max(0, self._remaining - bits - (1 if bits == 7 else 0))"),
     ("C06", "writer-shift", "dissect/cstruct/bitbuffer.py", "self._buffer |= data << (self._type.size * 8 - self._remaining)", "self._buffer |= data << (self._type.size * 8 - self._remaining) if bits != 5 else data << bits"),
     ("C06", "straddle-lt", "dissect/cstruct/types/structure.py", "                if bits_remaining < 0:\n                    raise ValueError", "                if bits_remaining < -1:\n                    raise ValueError"),
